@@ -783,6 +783,19 @@ pub fn stub_now() -> chrono::DateTime<chrono::Local> {
     chrono::DateTime::<chrono::Local>::from_naive_utc_and_offset(nt, chrono::FixedOffset::east_opt(0).unwrap())
 }
 
+/// cheap clock for the parser obligations: `Local::now` returns a fixed instant and chrono's year()/month()/day()
+/// accessors on NaiveDateTime read the symbolic clock (assumed: chrono's accessors return the fields the value was built from;
+/// the clock_now_* obligations run chrono's real constructors and accessors)
+pub fn stub_now_fixed() -> chrono::DateTime<chrono::Local> {
+    unsafe { K_NOW_CALLS += 1; }
+    let nd = chrono::NaiveDate::from_ymd_opt(2000, 1, 1).unwrap();
+    let nt = nd.and_hms_micro_opt(0, 0, 0, 0).unwrap();
+    chrono::DateTime::<chrono::Local>::from_naive_utc_and_offset(nt, chrono::FixedOffset::east_opt(0).unwrap())
+}
+pub fn clock_year(_d: &chrono::NaiveDateTime) -> i32 { unsafe { K_CLOCK[0] as i32 } }
+pub fn clock_month(_d: &chrono::NaiveDateTime) -> u32 { unsafe { K_CLOCK[1] } }
+pub fn clock_day(_d: &chrono::NaiveDateTime) -> u32 { unsafe { K_CLOCK[2] } }
+
 /// a symbolic current local date and time (years 1..=9999 unless `any_year`)
 pub fn set_any_clock(any_year: bool) -> [u32; 7] {
     let c: [u32; 7] = [kani::any(), kani::any(), kani::any(), kani::any(), kani::any(), kani::any(), kani::any()];
